@@ -1,6 +1,6 @@
 """C08: every compilable module is minified without error into a compilable module; unparseable input -> SyntaxError."""
 import ast, os, warnings, collections, itertools
-from harness import common, progs
+from harness import common, progs, fstr
 from harness.props import c05 as c05mod
 
 TRUSTED = [
@@ -69,7 +69,7 @@ def compiles(src):
 def sig(src, exc):
     s = src.strip()
     if isinstance(exc, ValueError) and 'f-string' in str(exc):
-        return 'fstring-unrepresentable'
+        return 'fstring-no-representation'
     if s.startswith('with ((') or (s.startswith('with (') and ') as' not in s.split(':')[0] and ' as ' not in s.split(':')[0]):
         return 'with-parenthesised-tuple'
     if isinstance(exc, ValueError) and 'integer string conversion' in str(exc):
@@ -120,6 +120,7 @@ def run(pid, tier):
     srcs = [s for s in RARE if compiles(s)]
     shapes = [s for s in removable_shapes() if compiles(s)]
     srcs = srcs + shapes
+    srcs += fstr.sources(r, {'quick': 120, 'search': 600}.get(eff, 3000))
     srcs += list(progs.DIRECTED) + progs.programs(r, {'quick': 120, 'search': 500}.get(eff, 3000)) + c05mod.programs(r, eff)[: 150 if eff == 'quick' else 3000]
     for i, s in enumerate(srcs):
         use = sets if i < len(RARE) else ([sets[1], {'remove_asserts': True}, {'remove_debug': True}, {'remove_literal_statements': True}, {'remove_pass': True, 'remove_asserts': True, 'remove_debug': True, 'remove_literal_statements': True}] if s in shapes else [sets[(i + k) % len(sets)] for k in range(3)])
